@@ -72,7 +72,7 @@ func buildResultForm(c *tgtCase, addlForm int) ech.ResolveResult {
 	for _, h := range c.Https {
 		rec := dns.HTTPS{Priority: uint16(h.Prio), Port: uint16(h.Port), NoDefaultALPN: h.NoDefault, IPv4Hint: ipList(h.V4Hint), IPv6Hint: ipList(h.V6Hint)}
 		if h.Target != "" {
-			rec.Target = "target.example"
+			rec.Target = "Target.Example"
 		}
 		if h.Ech != "nil" {
 			rec.ECH = bytes.Clone(polLists[h.Ech])
@@ -85,7 +85,7 @@ func buildResultForm(c *tgtCase, addlForm int) ech.ResolveResult {
 		r.HTTPS = append(r.HTTPS, rec)
 	}
 	if c.Addl != nil {
-		r.Additional = map[string][]net.IP{"target.example": ipList(c.Addl)}
+		r.Additional = map[string][]net.IP{"Target.Example": ipList(c.Addl)}
 	}
 	if len(c.Addl) == 0 {
 		switch addlForm {
